@@ -140,7 +140,8 @@ def run_fft(case, stt):
     check(calls["n"] >= 1, "harness: sentinel not computed")
     check(got.dtype == y.dtype and got.shape == y.shape, "computed Dask result {} {} != NumPy result {} {}", got.dtype, got.shape, y.dtype, y.shape)
     e2 = float(np.max(np.abs(got - y))) if y.size else 0.0
-    check(e2 <= tol * 1e-3 + 0, "Dask and NumPy backends differ by {:.3g}", e2)
+    # the same transform on a differently aligned / strided block: rounding-level differences only
+    check(e2 <= 64 * (6e-8 if single else 1.2e-16) * scale, "Dask and NumPy backends differ by {:.3g} (scale {:.3g})", e2, scale)
     # chunked along a transformed axis -> refused
     rank = x.ndim
     ta = case["axes"][0] % rank
